@@ -237,7 +237,8 @@ class Indicator(ABC):
             ):
                 return index + 1
 
-        return 0
+        # Only the first candle carries the indicator, resume after it
+        return 1
 
     def _set_active_index(self, index: int):
         self._active_index = index
